@@ -15,7 +15,9 @@ pub enum Point {
     /// `JoinedTableData::execute` is about to handle the next line of the joined file.
     JoinLoadLine,
     /// `FollowFileExecutor::execute` is about to load the `running` flag for the next input line.
-    FollowLine
+    FollowLine,
+    /// `execute_join` has combined the input line with one more of its joined rows.
+    JoinRow
 }
 
 #[derive(Debug, Clone, Copy, PartialEq, Eq)]
